@@ -126,19 +126,46 @@ def classOf (tbl : List Entry) (host : Bytes) (qt : Nat) : String :=
   let hops := if run.visited.length ≥ 2 then "+chain" else ""
   base ++ hops ++ (if unstableRegime tbl host qt then "+unstable" else "")
 
+/-- The CheckHost part of an observation: `B canon k ips…` is a result blocked
+by a filtering rule (Reason FilteredBlockList), otherwise R/N as for
+processRewrites. -/
+def parseCheck : List String → Option (Bool × Out × List String)
+  | "B" :: c :: k :: rest => do
+    let (o, rest') ← parseOut ("N" :: c :: k :: rest)
+    pure (true, o, rest')
+  | l => do
+    let (o, rest') ← parseOut l
+    pure (false, o, rest')
+
+/-- Letters, digits, '-', '.', not empty: the names for which the `||name^` rule
+oracle (`blockedBy`) is taken as exact.  For other names ('*', empty labels, …)
+urlfilter's own pattern syntax and hostname checks decide; the driver then accepts
+either verdict of the rule engine. -/
+def plainName (n : Bytes) : Bool :=
+  !n.isEmpty && n.all (fun b => Bytes.isLowerB b || Bytes.isDigitB b || b == 45 || b == 46) &&
+    n.head? != some 46 && n.getLast? != some 46
+
 /-- One lookup: `tbl` is the model's live table, `specTbl` the table the spec
-judges against (the configured entries, normalized). -/
-def judgeQuery (tbl specTbl : List Entry) (host : Bytes) (qt : Nat) (impl : List String) :
-    Option String := do
+judges against (the configured entries, normalized), `rules` the names blocked by
+the loaded filter list. -/
+def judgeQuery (tbl specTbl : List Entry) (rules : List Bytes) (host : Bytes) (qt : Nat)
+    (impl : List String) : Option String := do
   let mPr := processRewrites tbl host qt
+  let mV := checkHostFull (fun _ => stable) tbl rules host qt
   let mCh := checkHost tbl host qt
-  let modelS := classOf tbl host qt ++ "\t" ++ showOut mPr ++ "\t|\t" ++ showOut mCh
+  let modelS := classOf tbl host qt ++ (if mV == Verdict.blocked then "+blocked" else "") ++ "\t" ++
+    showOut mPr ++ "\t|\t" ++ (if mV == Verdict.blocked then "B\t-\t0" else showOut mCh)
   match parseOut impl with
   | some (iPr, rest2) =>
-    match parseOut rest2 with
-    | some (iCh, []) =>
+    match parseCheck rest2 with
+    | some (iBlocked, iCh, []) =>
       let lh := Bytes.lower host
-      let chAgree := checkAgree tbl host qt iCh
+      let known := plainName lh && rules.all plainName
+      let covered := decide (host ≠ []) && blockedBy rules lh
+      let iV : Verdict := if iBlocked then .blocked else if iCh.rewritten then .rewritten iCh else .notFound
+      let chAgree :=
+        if iBlocked then iCh == Out.empty && (covered || !known) && checkAgree tbl host qt Out.empty
+        else checkAgree tbl host qt iCh && (iCh.rewritten || !covered || !known)
       let agree := explains tbl host qt iPr && chAgree
       let spec :=
         -- processRewrites expects a lower-cased name (CheckHost lower-cases it): the
@@ -146,10 +173,12 @@ def judgeQuery (tbl specTbl : List Entry) (host : Bytes) (qt : Nat) (impl : List
         -- processRewrites directly is judged byte for byte
         if !(if lh = host then Spec.specOK specTbl host qt iPr else Spec.specExact specTbl host qt iPr) then
           some (Spec.failClass specTbl host qt iPr)
-        else if host ≠ [] ∧ !Spec.specOK specTbl lh qt iCh then
-          some (Spec.failClass specTbl lh qt iCh ++ ".checkhost")
-        else if host = [] ∧ iCh.rewritten then some "C06.root-query-rewritten"
-        else none
+        else if host = [] ∧ (iCh.rewritten ∨ iBlocked) then some "C06.root-query-rewritten"
+        else if Spec.verdictOK specTbl rules host qt iV then none
+        else if !known ∧ Spec.verdictOK specTbl (if iBlocked then [lh] else []) host qt iV then none
+        else if !iBlocked ∧ !iCh.rewritten ∧ covered ∧ Spec.specOK specTbl lh qt Out.empty then
+          some "C06.pass-through-skips-filters"
+        else some (Spec.failClass specTbl lh qt (if iBlocked then Out.empty else iCh) ++ ".checkhost")
       pure (verdict agree spec modelS)
     | _ => none
   | none =>
@@ -158,7 +187,7 @@ def judgeQuery (tbl specTbl : List Entry) (host : Bytes) (qt : Nat) (impl : List
     | ["HANG"] => pure (verdict false (some "C06.nontermination") modelS)
     | "PANIC" :: _ => pure (verdict false (some "C06.panic") modelS)
     | _ =>
-      -- an unexpected Reason (neither NotFilteredNotFound nor Rewritten) or an error
+      -- an unexpected Reason or an error
       pure (verdict false (some "C06.unexpected-result") modelS)
 
 def stepRw (ins impl : List String) : Option String := do
@@ -171,14 +200,17 @@ def stepRw (ins impl : List String) : Option String := do
       let host ← hexDecode hostS
       let qt ← parseNat qtS
       let tbl := prepare raws
-      judgeQuery tbl tbl host qt impl
+      judgeQuery tbl tbl [] host qt impl
     | _ => none
   | _ => none
 
 /-
 Sequence mode, one long-lived DNSFilter per block (state: the model's live table
 and the configured list the spec tracks):
-  C06.reset  autosave  n (domain answer kind ip)×n   =>  DUMP
+  C06.reset  autosave  b rule×b  n (domain answer kind ip)×n   =>  DUMP      (rules: blocked names, ||name^)
+  C06.reload                                         =>  DUMP   (save, YAML round trip, new filter)
+  C06.list                                           =>  n (domain answer)×n
+  C06.bad    add|del|upd                             =>  status DUMP  (malformed JSON body)
   C06.q      host qtype                              =>  PR CH
   C06.write  same                                    =>  DUMP(live) DUMP(written config)
   C06.add    domain answer kind ip                   =>  status DUMP
@@ -189,6 +221,7 @@ and the configured list the spec tracks):
 structure SeqState where
   tbl : List Entry
   rs : List Raw
+  rules : List Bytes
 
 def parseRows : Nat → List String → Option (List Spec.Row × List String)
   | 0, rest => some ([], rest)
@@ -245,37 +278,66 @@ def parseRaw1 (d a k ip : String) : Option Raw := do
 
 def stepSeq (st : SeqState) (op : String) (ins impl : List String) : Option (SeqState × String) := do
   match op, ins with
-  | "C06.reset", _auto :: nS :: rest =>
-    let n ← parseNat nS
-    let (raws, rest') ← parseRaws n rest
-    if !rest'.isEmpty then none
-    let st' : SeqState := ⟨prepare raws, raws⟩
-    pure (st', judgeTable st' "reset" none impl)
+  | "C06.reset", _auto :: bS :: rest0 =>
+    let b ← parseNat bS
+    let (ruleS, rest) ← takeN b rest0
+    let rules ← ruleS.mapM hexDecode
+    match rest with
+    | nS :: rest1 =>
+      let n ← parseNat nS
+      let (raws, rest') ← parseRaws n rest1
+      if !rest'.isEmpty then none
+      let st' : SeqState := ⟨prepare raws, raws, rules⟩
+      pure (st', judgeTable st' "reset" none impl)
+    | _ => none
   | "C06.q", [hostS, qtS] =>
     let host ← hexDecode hostS
     let qt ← parseNat qtS
-    let out ← judgeQuery st.tbl (prepare st.rs) host qt impl
+    let out ← judgeQuery st.tbl (prepare st.rs) st.rules host qt impl
     pure (st, out)
   | "C06.write", [_same] =>
-    let st' : SeqState := ⟨(stepTable st.tbl .write).1, Spec.editRaws st.rs .write⟩
+    let st' : SeqState := ⟨(stepTable st.tbl .write).1, Spec.editRaws st.rs .write, st.rules⟩
     pure (st', judgeTable st' "write" none impl)
+  | "C06.reload", [] =>
+    let st' : SeqState := ⟨(stepTable st.tbl .reload).1, Spec.editRaws st.rs .reload, st.rules⟩
+    pure (st', judgeTable st' "reload" none impl)
+  | "C06.bad", [_which] =>
+    let (t, ok) := stepTable st.tbl .bad
+    let st' : SeqState := ⟨t, Spec.editRaws st.rs .bad, st.rules⟩
+    pure (st', judgeTable st' "bad" (some (if ok then 200 else 400)) impl)
+  | "C06.list", [] =>
+    let modelS := "table-list\t" ++ toString st.tbl.length
+    match impl with
+    | nS :: rest =>
+      let n ← parseNat nS
+      let (fs, rest') ← takeN (2 * n) rest
+      if !rest'.isEmpty then none
+      let bs ← fs.mapM hexDecode
+      let rec pairs : List Bytes → List (Bytes × Bytes)
+        | a :: b :: r => (a, b) :: pairs r
+        | _ => []
+      let shown := pairs bs
+      let agree := shown == listTable st.tbl
+      let spec := if Spec.listOK st.rs shown then none else some "C06.list-not-configured"
+      pure (st, verdict agree spec modelS)
+    | _ => pure (st, verdict false (some "C06.unexpected-result-list") modelS)
   | "C06.add", [d, a, k, ip] =>
     let r ← parseRaw1 d a k ip
     let (t, ok) := stepTable st.tbl (.add r)
-    let st' : SeqState := ⟨t, Spec.editRaws st.rs (.add r)⟩
+    let st' : SeqState := ⟨t, Spec.editRaws st.rs (.add r), st.rules⟩
     pure (st', judgeTable st' "add" (some (if ok then 200 else 400)) impl)
   | "C06.del", [d, a] =>
     let dom ← hexDecode d
     let ans ← hexDecode a
     let (t, ok) := stepTable st.tbl (.del dom ans)
-    let st' : SeqState := ⟨t, Spec.editRaws st.rs (.del dom ans)⟩
+    let st' : SeqState := ⟨t, Spec.editRaws st.rs (.del dom ans), st.rules⟩
     pure (st', judgeTable st' "del" (some (if ok then 200 else 400)) impl)
   | "C06.upd", [td, ta, d, a, k, ip] =>
     let tdom ← hexDecode td
     let tans ← hexDecode ta
     let r ← parseRaw1 d a k ip
     let (t, ok) := stepTable st.tbl (.upd tdom tans r)
-    let st' : SeqState := ⟨t, Spec.editRaws st.rs (.upd tdom tans r)⟩
+    let st' : SeqState := ⟨t, Spec.editRaws st.rs (.upd tdom tans r), st.rules⟩
     pure (st', judgeTable st' "upd" (some (if ok then 200 else 400)) impl)
   | _, _ => none
 
@@ -371,4 +433,4 @@ def step (st : SeqState) (line : String) : SeqState × String :=
     | none => (st, "bad-op")
   | _ => (st, "bad-op")
 
-def main : IO Unit := run step ⟨[], []⟩
+def main : IO Unit := run step ⟨[], [], []⟩
